@@ -15,19 +15,21 @@ import (
 // makes the client panic.
 
 type c05Scenario struct {
-	WebSocket bool       `json:"websocket"`
-	Component bool       `json:"component"`
-	Client    ClientOpts `json:"client"`
-	Server    NegScript  `json:"server"`
-	Inbound   []InEl     `json:"inbound"`
-	Cut       bool       `json:"cut"`
-	CutAt     int64      `json:"cut_at"`
-	CutKind   string     `json:"cut_kind"`
-	Seg       int        `json:"segmentation"`
-	LatencyNs int64      `json:"latency_ns"`
-	Dawdle    int        `json:"handler_dawdle"`
-	Reply     bool       `json:"handler_sends"`
-	Chunk     int        `json:"server_write_chunk"`
+	BackPressure int        `json:"backpressure_window,omitempty"` // >0: both receive windows are this small and the server stops reading while it sends
+	Held         int        `json:"held_stanzas_before,omitempty"`
+	WebSocket    bool       `json:"websocket"`
+	Component    bool       `json:"component"`
+	Client       ClientOpts `json:"client"`
+	Server       NegScript  `json:"server"`
+	Inbound      []InEl     `json:"inbound"`
+	Cut          bool       `json:"cut"`
+	CutAt        int64      `json:"cut_at"`
+	CutKind      string     `json:"cut_kind"`
+	Seg          int        `json:"segmentation"`
+	LatencyNs    int64      `json:"latency_ns"`
+	Dawdle       int        `json:"handler_dawdle"`
+	Reply        bool       `json:"handler_sends"`
+	Chunk        int        `json:"server_write_chunk"`
 }
 
 func init() {
@@ -50,6 +52,15 @@ func runC05(e *Engine, g G, o RunOpt) RunInfo {
 	sc.Seg, sc.LatencyNs = netModes(g, e)
 	sc.Dawdle = g.N("dawdle", 3)
 	sc.Reply = g.Pct("handler-sends", 30)
+	if !sc.Component && !sc.WebSocket && g.Pct("backpressure", 12) {
+		// flow control: small windows, a server that writes a burst before it reads again, and
+		// (with stream management) held stanzas that an <a/> in the burst makes the client send again
+		sc.BackPressure = []int{1500, 4000}[g.N("window", 2)]
+		sc.Client.SM = true
+		sc.Server.SM = true
+		sc.Held = g.Range("held", 2, 4)
+	}
+	bpR := sc.BackPressure > 0 && !o.Avoiding("backpressure-ack-request")
 	sc.Chunk = []int{100000, 700, 64}[g.N("chunk", 3)]
 	n := 0
 	switch g.Weighted("len", 5, 3, 1) {
@@ -73,6 +84,10 @@ func runC05(e *Engine, g G, o RunOpt) RunInfo {
 		if n > 25 {
 			n = 25
 		}
+	}
+	if sc.BackPressure > 0 {
+		io2.AllowA = false
+		io2.AllowR = bpR
 	}
 	sc.Inbound = GenInbound(g, n, io2)
 	if sc.WebSocket {
@@ -100,6 +115,7 @@ func runC05(e *Engine, g G, o RunOpt) RunInfo {
 
 	e.Run(func() {
 		var cli *End
+		var sender xmpp.Sender
 		var sendBack func(s xmpp.Sender, p stanza.Packet)
 		nth := 0
 		if sc.Reply {
@@ -181,9 +197,21 @@ func runC05(e *Engine, g G, o RunOpt) RunInfo {
 				return
 			}
 			conn = s.Conn
+			sender = s.W.Client
 		}
 		established = true
 		cli = conn.Pipe.Cli
+		if sc.BackPressure > 0 {
+			for i := 0; i < sc.Held; i++ {
+				sender.SendRaw(fmt.Sprintf("<message id='held%d' to='peer@%s'><body>%s</body></message>", i+1, SimDomain, strings.Repeat("h", sc.BackPressure/5)))
+				e.Yield("held.sent")
+			}
+			e.Sleep(100 * time.Millisecond)
+			cli.RecvWindow = sc.BackPressure
+			conn.End.RecvWindow = sc.BackPressure
+			conn.PauseReads = true
+			e.Probe("c05.backpressure")
+		}
 		base = conn.End.TotalWritten
 		panicsBefore = len(e.Panics)
 		if sc.Cut {
@@ -202,7 +230,14 @@ func runC05(e *Engine, g G, o RunOpt) RunInfo {
 		for _, el := range sc.Inbound {
 			all.WriteString(el.Raw)
 		}
+		if sc.BackPressure > 0 {
+			// the burst starts with an acknowledgement of nothing: everything held is sent again
+			ack := fmt.Sprintf("<a xmlns='%s' h='0'/>", nsSM)
+			conn.Send(ack)
+			base += int64(len(ack))
+		}
 		conn.SendChunks(all.String(), sc.Chunk)
+		conn.PauseReads = false
 		// let everything be delivered, parsed and routed
 		e.WaitUntilFor("drain", 10*time.Minute, func() bool {
 			return cli.rTerm != nil || cli.IsClosed() || (cli.TotalRead >= base+total)
@@ -220,12 +255,21 @@ func runC05(e *Engine, g G, o RunOpt) RunInfo {
 	if sc.WebSocket && sc.Cut {
 		info.Triggers = append(info.Triggers, "websocket-connection-loss")
 	}
+	if sc.BackPressure > 0 {
+		for _, el := range sc.Inbound {
+			if el.Kind == "r" {
+				info.Triggers = append(info.Triggers, "backpressure-ack-request")
+				break
+			}
+		}
+	}
 	if !established {
 		e.Probe("precondition_failed")
 		return info
 	}
 	if e.Stuck != "" {
 		e.Violate("C05", "stuck", "%s", e.Stuck)
+		return info // the run did not finish: the delivery accounting below would be meaningless
 	}
 	for _, p := range e.Panics[panicsBefore:] {
 		e.Violate("C05", "panic:"+panicSite(p), "%s: %s\n%s", p.Where, p.Value, clip(p.Stack, 1800))
